@@ -53,7 +53,7 @@ def run(chk):
         chk.count(c.cls.split(":")[0])
         exp, badidx, why = rb.expected_status(c, capv)
         ist = res["impl_status"]
-        replay = {"script": c.short(4000), "cap": capv, "how": "echo '<script>' | build/harness/rtbuf_drv-* <dir>  (OVNI_VERIF_EVBUF=cap)",
+        replay = {"script": c.short(4000), "cap": capv, "environment": res.get("environment"), "how": "echo '<script>' | build/harness/rtbuf_drv-* <dir>  (OVNI_VERIF_EVBUF=cap)",
                   "impl_status": ist}
         if exp == "abort":
             chk.count("expected-abort")
